@@ -148,8 +148,20 @@ def instr_class(scen: Dict[str, Any], pc: int) -> str:
     return "unlisted"
 
 
+# Executor bookkeeping kept per call frame (Rust: page recorded by a near CALL, tracked return width).  It is
+# not in the bundle, so it differs after *every* load taken inside a subroutine, with or without consequences;
+# it is therefore never part of `where` (the fingerprints of the known findings would otherwise depend on
+# whether the snapshot point happens to lie in a subroutine) but is shown in the detail text and counted as a
+# label.  A return instruction that resumes elsewhere is named by the symptom instead.
+HIDDEN_PROBES = ("call_frames",)
+
+
 def diff_diag(a: Dict[str, Any], b: Dict[str, Any]) -> List[str]:
-    return sorted(k for k in a if a.get(k) != b.get(k))
+    return sorted(k for k in a if a.get(k) != b.get(k) and k not in HIDDEN_PROBES)
+
+
+def diff_hidden(a: Dict[str, Any], b: Dict[str, Any]) -> List[str]:
+    return [f"{k} orig={a.get(k)} restored={b.get(k)}" for k in HIDDEN_PROBES if k in a and a.get(k) != b.get(k)]
 
 
 # ---------------------------------------------------------------------------------------------------------
@@ -350,6 +362,7 @@ def judge_restored(model: str, scen: Dict[str, Any], R: List[Dict[str, Any]], dg
     obs per continuation step).  Returns (violation or None, names of the diagnostic probes that differ)."""
     sub = f"{model}:continuation"
     ddiff = diff_diag(dg, b["diag"]) if dg else []
+    hidden = diff_hidden(dg, b["diag"]) if dg else []
     names0, det0 = diff_obs(R[0], b["obs0"])
     # bus probes (region boundaries + strided sample of the whole external space) are memory as a program
     # would read it: an observation, not a diagnostic
@@ -381,6 +394,9 @@ def judge_restored(model: str, scen: Dict[str, Any], R: List[Dict[str, Any]], dg
                     # control-flow or asynchronous effect and gets one generic bucket
                     if "regs.PC" in names or "regs.S" in names:
                         cat = "regs (control flow)"
+                        # a return/call/far jump that itself resumes elsewhere (no delivery involved)
+                        if "irq.stats" not in names and ic.split(" ")[0] in ("RET", "RETF", "CALL", "CALLF", "JPF"):
+                            cat += " after " + ic.split(" ")[0]
                     elif ic.startswith("MV A, (") or ic.startswith("MV A, ["):
                         cat = "regs after " + ic
                     else:
@@ -392,7 +408,8 @@ def judge_restored(model: str, scen: Dict[str, Any], R: List[Dict[str, Any]], dg
             return Violation(sub, where, f"diverges later: {cat}", case,
                              f"{what}; first divergence after continuation step "
                              f"{i + 1} in {sorted(names)}: " + "; ".join(det[:8]) +
-                             f"; internal state differing right after load: {ddiff}"), ddiff
+                             f"; internal state differing right after load: {ddiff}" +
+                             (f"; call-frame bookkeeping differing right after load: {hidden}" if hidden else "")), ddiff
     return None, ddiff
 
 
@@ -438,6 +455,8 @@ def judge_model(model: str, scen: Dict[str, Any], points: List[int], cont: int, 
             labels.append("diverged")
         elif ddiff:
             labels.append("latent-internal-diff")
+        if dg and diff_hidden(dg, b["diag"]):
+            labels.append("call-frame-bookkeeping-not-restored")
         sample = None
         if rep.evaluations % 997 == 5:
             sample = {"model": model, "scenario": scen.get("index"), "profile": scen.get("profile"), "k": k,
@@ -545,6 +564,8 @@ def check_chains(model: str, scen: Dict[str, Any], chains: List[Dict[str, Any]],
                 labels.append("diverged")
             elif ddiff:
                 labels.append("latent-internal-diff")
+            if link.get("ref_diag") and diff_hidden(link["ref_diag"], link.get("diag") or {}):
+                labels.append("call-frame-bookkeeping-not-restored")
             sample = None
             if rep.evaluations % 499 == 7:
                 sample = {"model": model, "scenario": scen.get("index"), "profile": scen.get("profile"),
